@@ -188,6 +188,14 @@ def strict_suffix(pr, e, crates, depth=0):
             r = pr.lin_interval(pr.lin(rng[2][0]))
             return bool(r and r[0] >= 1) and contracts.suffix_of_param(pr, e[2][0])
         return False
+    if e[0] in ("path", "proj") and e[2] and isinstance(e[2][-1], tuple) and e[2][-1][0] == "sub":
+        _, frm, to, from_end = e[2][-1]
+        base = (e[0], e[1], tuple(e[2][:-1])) + tuple(e[3:])
+        return bool(from_end and to == 0 and frm >= 1) and contracts.suffix_of_param(pr, base)
+    from discharge import split_first_parts
+    sf = split_first_parts(e)
+    if sf is not None and sf[2] == 1 and sf[1] >= 1:
+        return contracts.suffix_of_param(pr, sf[0])
     if e[0] == "proj" and e[1][0] == "call" and e[1][1] in SPLIT_AT and tuple(e[2]) == ("1",):
         # s.split_at(m).1 == s[m..]
         r = pr.lin_interval(pr.lin(e[1][2][1]))
